@@ -23,7 +23,7 @@ APP = os.path.join(HERE, 'c13_app.js')
 SPECIAL = ['income', 'investment', 'transfer']
 SIG = 'C13/browser-classifies-by-merchant-tags'
 TICK = 64
-MERCHANTS = ['Acme', 'Bolt', 'Cafe', 'Venmo', 'Job', 'Bank', 'Broker']
+MERCHANTS = ['Acme', 'Bolt', 'Cafe', 'Venmo', 'Job', 'Bank', 'Broker', '7-Eleven', '7 Eleven', 'Acme-Payroll', 'Acme Payroll', 'A.B', 'A,B', 'A/B', 'Café', 'CAFE']
 CATS = [('Food', 'Out'), ('Food', 'Home'), ('Bills', 'Net'), ('Money', 'Moves')]
 BK = ['income', 'investment', 'transfer_in', 'transfer_out', 'spending', 'credits']
 
@@ -92,6 +92,27 @@ def corpus():
                         'filters': [[], [{'type': 'month', 'text': '2025-02', 'mode': 'include'}],
                                     [{'type': 'merchant', 'text': 'venmo', 'mode': 'include'}],
                                     [{'type': 'tag', 'text': 'food', 'mode': 'exclude'}]]})
+    # visible transactions of a merchant that cancel exactly under a filter while it has others outside it (a zero
+    # filtered total is falsy in JS), for every class of merchant
+    for tg in ([], ['income'], ['transfer'], ['investment']):
+        txns = [{'a': 3200, 'tags': list(tg), 'm': 'Bookshop', 'c': 'Fun', 's': 'Books', 'd': '2025-01-05'},
+                {'a': -3200, 'tags': list(tg), 'm': 'Bookshop', 'c': 'Fun', 's': 'Books', 'd': '2025-01-20'},
+                {'a': 1920, 'tags': list(tg), 'm': 'Bookshop', 'c': 'Fun', 's': 'Books', 'd': '2025-02-03'},
+                {'a': 800, 'tags': [], 'm': 'Cafe', 'c': 'Food', 's': 'Out', 'd': '2025-01-07'},
+                {'a': 0, 'tags': [], 'm': 'Zero', 'c': 'Food', 's': 'Out', 'd': '2025-01-08'},
+                {'a': 640, 'tags': [], 'm': 'Zero', 'c': 'Food', 's': 'Out', 'd': '2025-02-08'}]
+        out.append({'txns': txns, 'homogeneous': True,
+                    'filters': [[], [{'type': 'month', 'text': '2025-01', 'mode': 'include'}],
+                                [{'type': 'month', 'text': '2025-02', 'mode': 'exclude'}],
+                                [{'type': 'merchant', 'text': 'bookshop', 'mode': 'include'}, {'type': 'month', 'text': '2025-01', 'mode': 'include'}]]})
+    # merchants whose names differ only in punctuation / case / accents are different merchants, all embedded
+    names = ['7-Eleven', '7 Eleven', 'Acme-Payroll', 'Acme Payroll', 'A.B', 'A,B', 'A/B', 'A+B', 'A&B', 'A(B)', 'A:B', 'Café', 'Cafe', 'CAFE']
+    txns = [{'a': 640 * (i + 1), 'tags': ['income'] if 'Payroll' in n else [], 'm': n, 'c': 'Food', 's': 'Out', 'd': f'2025-0{1 + i % 3}-11'}
+            for i, n in enumerate(names)]
+    txns += [{'a': -64 * (i + 1), 'tags': ['income'] if 'Payroll' in n else [], 'm': n, 'c': 'Food', 's': 'Out', 'd': f'2025-0{1 + (i + 1) % 3}-12'}
+             for i, n in enumerate(names)]
+    out.append({'txns': txns, 'homogeneous': True,
+                'filters': [[], [{'type': 'month', 'text': '2025-01', 'mode': 'include'}], [{'type': 'category', 'text': 'food', 'mode': 'include'}]]})
     # consecutive calls on special tags in one session, repeated tags, all six buckets at once
     txns = [{'a': -(i + 1) * 640, 'tags': [w], 'm': m, 'c': 'Money', 's': 'Moves', 'd': f'2025-0{1 + i % 3}-1{i}'}
             for i, (w, m) in enumerate([('income', 'Job'), ('income', 'Job'), ('transfer', 'Bank'), ('Transfer', 'Bank'),
@@ -113,13 +134,22 @@ def hetero_merchants(txns):
     return sorted(m for m, ts in by.items() if any(cls(t['tags']) != cls([x for u in ts for x in (u['tags'] or [])]) for t in ts))
 
 
-def ids_of(txns):
+def ids_of(txns, data):
+    """The embedded id of every generated transaction, read off the embedded data itself (merchant display name -> ids of its
+    transactions in input order), so that the check does not depend on how ids are formed. A transaction the data does not
+    contain gets None (and then can never be visible)."""
+    emb = {}
+    for cat in (data.get('categoryView') or {}).values():
+        for sub in (cat.get('subcategories') or {}).values():
+            for m in (sub.get('merchants') or {}).values():
+                emb.setdefault(m.get('displayName'), [x.get('id') for x in m.get('transactions') or []])
     seen = {}
     out = []
     for t in txns:
         k = seen.get(t['m'], 0)
         seen[t['m']] = k + 1
-        out.append(f"{t['m']}_{k}")
+        l = emb.get(t['m'], [])
+        out.append(l[k] if k < len(l) else None)
     return out
 
 
@@ -170,7 +200,7 @@ def evaluate(cases, js_path, workdir):
         if isinstance(j, dict) and 'error' in j:
             out.append({'error': 'js: ' + j['error']})
             continue
-        ids = ids_of(c['txns'])
+        ids = ids_of(c['txns'], r['data'])
         recs = []
         for f, jr in zip(c['filters'], j):
             vis_ids = set(jr['visible'])
@@ -187,7 +217,7 @@ def evaluate(cases, js_path, workdir):
             br = {'income': ticks(fv['income']), 'investment': ticks(fv['investment']), 'spending': ticks(fv['spending']),
                   'credits': ticks(fv['credits']), 'transfers': ticks(fv['transfers']), 'net': ticks(fv['net']), 'count': fv['count'],
                   'grand': ticks(jr['grandTotal'])}
-            recs.append({'filter': f, 'visible': vis, 'unknown_ids': sorted(vis_ids - set(ids)), 'cli': cli, 'browser': br,
+            recs.append({'filter': f, 'visible': vis, 'unknown_ids': sorted(vis_ids - {i for i in ids if i}), 'not_embedded': sum(1 for i in ids if i is None), 'cli': cli, 'browser': br,
                          'inexact': inexact or any(v is None for v in br.values()),
                          'header': {k: ticks(v) for k, v in jr['header'].items()},
                          'cli_totals': {k: (ticks(v) if k != 'count' else v) for k, v in r['cli'].items()}})
@@ -206,6 +236,8 @@ def judge(case, rec):
     nvis = sum(rec['visible'])
     if b['count'] != nvis:
         bad.append(('count', False))
+    if rec.get('not_embedded'):
+        bad.append(('analysed-transactions-missing-from-the-embedded-data', False))
     if not rec['filter'] and nvis != len(case['txns']):
         bad.append(('unfiltered-view-hides-transactions', False))
     exp = {'income': c['income'], 'investment': c['investment'], 'spending': c['spending'], 'credits': c['credits'],
@@ -242,6 +274,7 @@ HEADER = '''From Coq Require Import String List Bool ZArith.
 From Tally Require Import Lib.Str Lib.NumOps C06.Model C13.Browser.
 Import ListNotations.
 Open Scope Z_scope.
+Definition sbytes (l : list N) : string := fold_right (fun n s => String (Ascii.ascii_of_N n) s) EmptyString l.
 Definition T a tg m := {| amount := a; tags := tg; merchant := m; category := ""; subcategory := ""; month := "" |}.
 Fixpoint list_eqb (a b : list Z) : bool :=
   match a, b with [], [] => true | x :: r, y :: s => (Z.eqb x y && list_eqb r s)%bool | _, _ => false end.
